@@ -341,6 +341,7 @@ fn one(rep: &mut Report, mon: &str, case: u64, g: &mut Sm64, ctx: &Ctx, entry: E
         rep.count("empty_arrays_round_tripped");
     }
     rep.distinct(("io", format!("{entry:?}"), format!("{ty:?}"), a, b, c, encode, format!("{layout:?}")));
+    rep.distinct_in("shapes round-tripped", (a, b, c));
     if rep.samples.len() < 4 {
         rep.sample(json!({"cfg": cfg, "rows": rows.len(), "first_row": rows.first().map(|r| json!({"labels": [r.0, r.1], "values": fjv(&r.2[..r.2.len().min(4)])}))}));
     }
